@@ -24,6 +24,7 @@ import ast
 from typing import Any, Dict, List, Optional, Tuple, Iterable, Set
 
 from .model import Program, Func, Class, unparse, f_cls, const_str
+from .inline import InlineBlock, InlineJump
 
 Term = Tuple[Any, ...]
 
@@ -211,16 +212,29 @@ class StoreModel:
                 e1, e2 = dict(env), dict(env)
                 r1 = self._walk(st.body, f, e1, conds + [(st.test, True)], out, handlers, depth)
                 r2 = self._walk(st.orelse, f, e2, conds + [(st.test, False)], out, handlers, depth)
-                for k in set(e1) | set(e2):
-                    a, b = e1.get(k), e2.get(k)
-                    if a == b and a is not None:
-                        env[k] = a
-                    elif a is not None and b is not None:
-                        env[k] = ("phi", a, b)
-                    else:
-                        env[k] = a if a is not None else b  # type: ignore
+                j1 = bool(st.body) and _ends_with_jump(st.body)
+                j2 = bool(st.orelse) and _ends_with_jump(st.orelse)
+                if j1 != j2:
+                    # one branch left the enclosing expanded helper (its variables were recorded at the jump): what follows sees the other one
+                    env.update(e2 if j1 else e1)
+                else:
+                    for k in set(e1) | set(e2):
+                        a, b = e1.get(k), e2.get(k)
+                        if a == b and a is not None:
+                            env[k] = a
+                        elif a is not None and b is not None:
+                            env[k] = ("phi", a, b)
+                        else:
+                            env[k] = a if a is not None else b  # type: ignore
                 if r1 is not None and r2 is not None:
                     return r1 if r1 == r2 else ("phi", r1, r2)
+                # `if v is None: <leaves>`: afterwards v is not None (an `X or None` / Optional helper result loses its None arm)
+                t_ = st.test
+                if isinstance(t_, ast.Compare) and len(t_.ops) == 1 and isinstance(t_.left, ast.Name) and isinstance(t_.comparators[0], ast.Constant) \
+                        and t_.comparators[0].value is None and t_.left.id in env:
+                    leaves_when_none = (isinstance(t_.ops[0], ast.Is) and _terminates(st.body)) or (isinstance(t_.ops[0], ast.IsNot) and st.orelse and _terminates(st.orelse))
+                    if leaves_when_none:
+                        env[t_.left.id] = _strip_none(env[t_.left.id])
                 # a branch that always leaves (return / raise): the rest runs under the negated test
                 if _terminates(st.body) and not _terminates(st.orelse):
                     conds = conds + [(st.test, False)]
@@ -233,12 +247,33 @@ class StoreModel:
                         pass
             elif isinstance(st, (ast.For, ast.AsyncFor)):
                 it = self._expr(st.iter, f, env, conds, out, handlers, depth)
+                if isinstance(it, tuple) and it and it[0] == "segs" and isinstance(st.target, ast.Name):
+                    self._seg_loop(st, it, f, env, conds, out, handlers, depth)
+                    continue
                 self._bind_loop(st.target, it, st.iter, f, env)
                 self._walk(st.body, f, env, conds, out, handlers, depth)
                 self._walk(st.orelse, f, env, conds, out, handlers, depth)
             elif isinstance(st, ast.While):
                 self._expr(st.test, f, env, conds, out, handlers, depth)
                 self._walk(st.body, f, env, conds + [(st.test, True)], out, handlers, depth)
+            elif isinstance(st, InlineJump):
+                jumps = self.__dict__.setdefault("_jumps", [])
+                if jumps:
+                    jumps[-1].append(dict(env))
+                return ret
+            elif isinstance(st, InlineBlock):
+                # an expanded helper: the variables at its end are those of its exits (each `return` became a jump here)
+                jumps = self.__dict__.setdefault("_jumps", [])
+                jumps.append([])
+                r = self._walk(st.body, f, env, conds, out, handlers, depth)
+                snaps = jumps.pop()
+                envs = snaps + ([dict(env)] if not _ends_with_jump(st.body) else [])
+                if envs:
+                    merged = _merge_envs(envs)
+                    env.clear()
+                    env.update(merged)
+                if r is not None:
+                    return r
             elif isinstance(st, (ast.With, ast.AsyncWith)):
                 for item in st.items:
                     t = self._expr(item.context_expr, f, env, conds, out, handlers, depth)
@@ -274,6 +309,45 @@ class StoreModel:
         elif isinstance(tg, (ast.Tuple, ast.List)):
             for i, e in enumerate(tg.elts):
                 self._bind(e, ("index", t, i), val, f, env)
+
+    def _seg_loop(self, st: ast.For, it: Term, f: Func, env: Dict[str, Term], conds, out: List[Effect], handlers: List[str], depth: int) -> None:
+        """`for s in <segments of the path>:` with `xs.append(s)` into an empty local list: xs holds the segments again
+        (exactly when every `continue` only skips empty segments and the appended value is the segment itself)"""
+        tgt = st.target.id  # type: ignore
+        qual, why = it[1], (it[2] if len(it) > 2 else "")
+        accs: Dict[str, List[ast.Call]] = {}
+        for n in ast.walk(ast.Module(body=st.body, type_ignores=[])):
+            if isinstance(n, ast.Call) and isinstance(n.func, ast.Attribute) and n.func.attr == "append" and isinstance(n.func.value, ast.Name) \
+                    and env.get(n.func.value.id) in (("tuple",), ("call", "list")) and len(n.args) == 1:
+                accs.setdefault(n.func.value.id, []).append(n)
+
+        def scan(stmts: List[ast.stmt], guard: Optional[Tuple[ast.AST, bool]]) -> None:
+            nonlocal qual, why
+            for x in stmts:
+                if isinstance(x, ast.Continue):
+                    if guard is None or not _skips_only_empty(guard[0], guard[1], st.target):
+                        qual, why = "lossy", f"`continue` at line {x.lineno} skips non-empty segments"
+                elif isinstance(x, ast.Break):
+                    qual, why = "lossy", f"`break` at line {x.lineno}: the remaining segments are dropped"
+                elif isinstance(x, ast.If):
+                    scan(x.body, (x.test, True))
+                    scan(x.orelse, (x.test, False))
+                elif isinstance(x, (ast.With, ast.Try)):
+                    scan(x.body, guard)
+        scan(st.body, None)
+        env[tgt] = ("seg",)
+        for name, calls in accs.items():
+            for c in calls:
+                elt = self._expr(c.args[0], f, dict(env), conds, [], handlers, depth)
+                if elt != ("seg",):
+                    if isinstance(elt, tuple) and elt and elt[0] == "lossy":
+                        qual, why = "lossy", elt[1]
+                    else:
+                        qual, why = "lossy", f"segment mapped through {show(elt)}"
+        self._walk(st.body, f, env, conds, out, handlers, depth)
+        self._walk(st.orelse, f, env, conds, out, handlers, depth)
+        for name in accs:
+            env[name] = ("segs", qual, why)
 
     def _bind_loop(self, target: ast.AST, it: Term, iter_expr: ast.AST, f: Func, env: Dict[str, Term]) -> None:
         base = it
@@ -373,6 +447,8 @@ class StoreModel:
             return a if a == b else ("phi", a, b)
         if isinstance(e, ast.BoolOp):
             ts = [self._expr(v, f, env, conds, out, handlers, depth) for v in e.values]
+            if isinstance(e.op, ast.Or) and len(ts) == 2 and ts[1] == ("const", None) and isinstance(ts[0], tuple) and ts[0][:1] in (("segs",), ("join",)):
+                return ("phi", ts[0], ts[1])  # `xs or None`: the value itself, or None when it is empty
             return ("bool",) + tuple(ts)
         if isinstance(e, ast.UnaryOp):
             return ("not", self._expr(e.operand, f, env, conds, out, handlers, depth))
@@ -688,15 +764,64 @@ def _terminates(stmts: List[ast.stmt]) -> bool:
     if not stmts:
         return False
     last = stmts[-1]
-    if isinstance(last, (ast.Return, ast.Raise, ast.Continue, ast.Break)):
+    if isinstance(last, (ast.Return, ast.Raise, ast.Continue, ast.Break, InlineJump)):
         return True
     if isinstance(last, ast.If):
         return _terminates(last.body) and _terminates(last.orelse)
     return False
 
 
+def _ends_with_jump(stmts: List[ast.stmt]) -> bool:
+    if not stmts:
+        return False
+    last = stmts[-1]
+    if isinstance(last, InlineJump):
+        return True
+    if isinstance(last, ast.If):
+        return _ends_with_jump(last.body) and _ends_with_jump(last.orelse)
+    return False
+
+
+def _merge_envs(envs: List[Dict[str, Any]]) -> Dict[str, Any]:
+    out: Dict[str, Any] = {}
+    for k in {k for e in envs for k in e}:
+        vals: List[Any] = []
+        for e in envs:
+            if k in e and e[k] not in vals:
+                vals.append(e[k])
+        out[k] = vals[0] if len(vals) == 1 else ("phi",) + tuple(vals)
+    return out
+
+
 def _is_path(t: Any) -> bool:
     return t == ("sym", "PATH")
+
+
+def _strip_none(t: Any) -> Any:
+    if isinstance(t, tuple) and t and t[0] == "phi":
+        arms = [_strip_none(x) for x in t[1:] if x != ("const", None)]
+        if len(arms) == 1:
+            return arms[0]
+        if arms:
+            return ("phi",) + tuple(arms)
+    return t
+
+
+def _skips_only_empty(test: ast.AST, polarity: bool, target: ast.AST) -> bool:
+    """the guard of a `continue` is true only for empty (or root) segments: `if not s`, `if s == ""`, `if len(s) == 0`"""
+    if not polarity:
+        return _drops_only_empty(test, target)  # `if s: ... else: continue`
+    if isinstance(test, ast.UnaryOp) and isinstance(test.op, ast.Not):
+        return _drops_only_empty(test.operand, target)
+    if isinstance(test, ast.Compare) and len(test.ops) == 1 and isinstance(test.ops[0], ast.Eq):
+        l, r = test.left, test.comparators[0]
+        if isinstance(target, ast.Name) and isinstance(l, ast.Name) and l.id == target.id and isinstance(r, ast.Constant) and r.value in ("", "/"):
+            return True
+        if isinstance(l, ast.Call) and unparse(l.func) == "len" and isinstance(r, ast.Constant) and r.value == 0:
+            return True
+    if isinstance(test, ast.BoolOp) and isinstance(test.op, ast.Or):
+        return all(_skips_only_empty(v, True, target) for v in test.values)
+    return False
 
 
 def _drops_only_empty(cond: ast.AST, target: ast.AST) -> bool:
